@@ -421,4 +421,29 @@ theorem disk_cache_get_spec (H : Bytes → Bytes) (hH : ∀ b, (H b).length = 32
         exact this
       simp [decodeBlockExt, h80, hv]
 
+/-! ### concrete instances for the non-vacuity examples of Props/C09.lean (kernel-evaluated there) -/
+namespace Example
+
+/-- a 32-byte "hash" the kernel can evaluate: the first 32 bytes, zero-padded -/
+def H : Bytes → Bytes := fun b => (b ++ List.replicate 32 0).take 32
+/-- a 60-byte transaction: one input, one output, version byte `v` -/
+def tx (v : UInt8) : Bytes :=
+  [v,0,0,0, 1] ++ List.replicate 32 7 ++ [0,0,0,0, 0, 0xff,0xff,0xff,0xff, 1, 9,0,0,0,0,0,0,0, 0, 0,0,0,0]
+def hdr : Bytes := List.replicate 80 0
+/-- a block of two transactions (201 bytes) -/
+def blk : Bytes := hdr ++ [2] ++ tx 1 ++ tx 2
+/-- two copies behind the same header: a complete one-transaction block, and a list that ends inside its count of 5 -/
+def bad : List Copy := [⟨.cmpctB, hdr ++ [1] ++ tx 1⟩, ⟨.full, hdr ++ [5] ++ tx 2⟩]
+/-- the side file netBlockReceived writes for `blk` -/
+def side : Bytes := hashesFile (decodeBlock H blk).txs
+def view (l : List BlockTx) : List (Bytes × Bytes × Nat × Nat × Bytes) :=
+  l.map fun t => (t.ids.hash, t.ids.wtxid, t.ids.size, t.ids.noWitSize, t.raw)
+/-- what `get_block_from_disk_cache` returns for `blk` and side file `h`: TxCount, the ids, and whether `Txs` (ids, sizes,
+    raw bytes) equal those of `decodeBlock` -/
+def got (h : Option Bytes) : Option (Nat × Option (List Bytes) × Bool) :=
+  (diskCacheGet H (some blk) h).map fun s => (s.txCount, s.txs.map (fun l => l.map (·.ids.hash)),
+    s.txs.map view == some (view (decodeBlock H blk).txs))
+
+end Example
+
 end GocoinV.Wire
